@@ -88,6 +88,12 @@ func (s *scriptedReader) Read(p []byte) (int, error) {
 	return n, nil
 }
 
+// eofLike is an error that claims kinship with io.EOF through errors.Is without being it.
+type eofLike struct{}
+
+func (eofLike) Error() string        { return "eof-like error" }
+func (eofLike) Is(target error) bool { return target == io.EOF }
+
 type scriptedWriter struct {
 	mode string // full short err over
 	got  []byte
@@ -195,7 +201,12 @@ func ops(quick bool) []seq.Op[*pair] {
 		err    error
 		neg    bool
 	}
-	for _, s := range []rs{{"chunks", []string{"ab", "c"}, nil, false}, {"empty", nil, nil, false}, {"err-after-ab", []string{"ab"}, errW, false}, {"negative", nil, nil, true}, {"big", []string{strings.Repeat("q", 600)}, nil, false}} {
+	for _, s := range []rs{{"chunks", []string{"ab", "c"}, nil, false}, {"empty", nil, nil, false}, {"err-after-ab", []string{"ab"}, errW, false}, {"negative", nil, nil, true}, {"big", []string{strings.Repeat("q", 600)}, nil, false},
+		// terminating errors that merely resemble end-of-stream: only the io.EOF value itself means "done"
+		{"err-wrapping-EOF", []string{"ab"}, fmt.Errorf("connection reset: %w", io.EOF), false},
+		{"err-is-EOF-by-method", []string{"ab"}, eofLike{}, false},
+		{"err-UnexpectedEOF", []string{"ab"}, io.ErrUnexpectedEOF, false},
+		{"err-immediately-wrapped-EOF", nil, fmt.Errorf("%w", io.EOF), false}} {
 		s := s
 		add("ReadFrom("+s.name+")", false, func(t *tex.Buffer) string {
 			n, e := t.ReadFrom(&scriptedReader{chunks: append([]string(nil), s.chunks...), err: s.err, neg: s.neg})
